@@ -923,6 +923,30 @@ class Interp:
                         root = ('O', 'constalloc#%d' % st.n['obj'])
                         st.mem[root] = val
                         return ('ref', root, ())
+                if 'elem' in o and o['elem']['size'] > 0 and o['elem']['fields'] and \
+                        all(int_type(f_['ty']) or f_['ty'] == 'bool' for f_ in o['elem']['fields']) and \
+                        len(b) % o['elem']['size'] == 0:
+                    # a table of tuples / structs with integer fields
+                    es = o['elem']['size']
+                    ename = o['elem']['name']
+                    ekind = ('adt', ename, 0, ename.split('::')[-1]) if ename else ('tuple',)
+                    items = []
+                    for k0 in range(0, len(b), es):
+                        vals = []
+                        for f_ in o['elem']['fields']:
+                            raw = int.from_bytes(bytes(b[k0 + f_['offset']:k0 + f_['offset'] + f_['size']]), 'little')
+                            bits_ = 1 if f_['ty'] == 'bool' else int_type(f_['ty'])[0]
+                            vals.append(C(bits_, raw & T.mask(bits_)))
+                        items.append(('agg', ekind, tuple(vals)))
+                    arr = ('agg', ('array',), tuple(items))
+                    if not isref and tyname.startswith('['):
+                        return arr
+                    st.n['obj'] += 1
+                    root = ('O', 'constalloc#%d' % st.n['obj'])
+                    st.mem[root] = arr
+                    if o['ty'].startswith('&[') and ';' not in o['ty']:
+                        return ('slice', root, (), C(64, 0), C(64, len(items)))
+                    return ('ref', root, ())
                 if 'struct' in o and all(int_type(f_['ty']) or f_['ty'] == 'bool' for f_ in o['struct']['fields']) and \
                         all(0 <= f_['offset'] and f_['offset'] + max(f_['size'], 0) <= len(b) for f_ in o['struct']['fields']):
                     # a struct constant whose fields are all integers: read the fields out of the allocation
@@ -935,6 +959,8 @@ class Interp:
                     names_ = [f_['name'] for f_ in o['struct']['fields']]
                     if sname.endswith('ops::RangeInclusive') and names_ == ['start', 'end', 'exhausted']:
                         val = ('agg', IT_RINC, tuple(vals))
+                    elif not sname:
+                        val = ('agg', ('tuple',), tuple(vals))
                     else:
                         val = ('agg', ('adt', sname, 0, sname.split('::')[-1]), tuple(vals))
                     if not isref:
@@ -2491,13 +2517,32 @@ def m_range_contains(ip, st, fr, t, args, site, dest_ty):
     rv = ip.read(st, rng[1], rng[2]) if (rng is not None and rng[0] == 'ref') else rng
     iv = ip.read(st, item[1], item[2]) if (item is not None and item[0] == 'ref') else item
     if rv is not None and rv[0] == 'agg' and iv is not None and is_int(iv):
+        lo = hi = None
         if rv[1] == IT_RINC and rv[2][2] == C(1, 0):
             lo, hi = rv[2][0], rv[2][1]
-            yield (O(1, 'and', O(1, 'ule', lo, iv), O(1, 'ule', iv, hi)), st, 'ok', None)
-            return
-        if rv[1][0] == 'adt' and rv[1][1].endswith('ops::Range') and len(rv[2]) == 2:
+            upper = O(1, 'ule', iv, hi)
+        elif rv[1][0] == 'adt' and rv[1][1].endswith('ops::Range') and len(rv[2]) == 2:
             lo, hi = rv[2]
-            yield (O(1, 'and', O(1, 'ule', lo, iv), O(1, 'ult', iv, hi)), st, 'ok', None)
+            upper = O(1, 'ult', iv, hi)
+        if lo is not None:
+            # three cases, each a plain comparison the interval domain can use: below, inside, above
+            cases = [((O(1, 'ult', iv, lo), 1), None, 0),
+                     ((O(1, 'ult', iv, lo), 0), (upper, 1), 1),
+                     ((O(1, 'ult', iv, lo), 0), (upper, 0), 0)]
+            live = []
+            for c1, c2, res in cases:
+                s2 = st.copy()
+                if not s2.env.assume_eq(c1[0], c1[1]):
+                    continue
+                if c2 is not None and not s2.env.assume_eq(c2[0], c2[1]):
+                    continue
+                live.append((s2, res, c1, c2))
+            for s2, res, c1, c2 in live:
+                if len(live) > 1:
+                    s2.decisions.append((c1[0], 'contains', site))
+                    if c2 is not None:
+                        s2.decisions.append((c2[0], 'contains', site))
+                yield (C(1, res), s2, 'ok', None)
             return
     yield from ip.unknown_external(st, t['resolved'] or t['callee'], args, site, dest_ty, t)
 
